@@ -161,6 +161,7 @@ func (en *Engine) finish(e *Exec, fc *FuncContract, res *UnitResult) {
 	// preludes: base, the contract's own, and those of every contract applied at a call site
 	names := []string{"base.smt2"}
 	names = append(names, fc.Uses...)
+	names = append(names, e.extraUses...)
 	var ks []string
 	for k := range e.applied {
 		ks = append(ks, k)
@@ -254,6 +255,19 @@ func (en *Engine) finish(e *Exec, fc *FuncContract, res *UnitResult) {
 			}
 		}
 		hdr.WriteString(d + "\n")
+	}
+	// package-level struct variables live at fixed, pairwise distinct addresses allocated before the function runs
+	var gas []string
+	for _, d := range e.decls {
+		if f := strings.Fields(d); len(f) > 1 && f[0] == "(declare-const" && strings.HasPrefix(f[1], "GA_") {
+			gas = append(gas, f[1])
+		}
+	}
+	if len(gas) > 1 {
+		hdr.WriteString("(assert (distinct " + strings.Join(gas, " ") + "))\n")
+	}
+	for _, g := range gas {
+		hdr.WriteString(fmt.Sprintf("(assert (< %s nextRef0))\n", g))
 	}
 	// type invariants of the entry heaps: every slice/pointer stored in a pre-existing object is well formed
 	sliceWf := func(t string) string {
